@@ -26,7 +26,7 @@ RULE_TEXT = ("instances = (function, field, write kind) triples for all machine-
              "fetch_and_run; non-trivial = needed dominance / provenance / path search")
 ASSUMPTIONS = [
     "rustc MIR and Instance resolution are correct for the analysed build",
-    "A-LATE: `late` cannot bind an immediate word at run time (DESIGN §2.1)",
+    "A-LATE: `late` cannot bind an immediate word at run time - no longer an assumption: rule C11.R4 late-binding-refuses-build-time-words decides it",
     "std Vec/slice/mem::swap behave as documented",
 ]
 
